@@ -1,6 +1,8 @@
 //! svh: searchlite verification harness. Drives the real code and records what it did; all
 //! verdicts are produced by TLC on the specifications in /verif/spec.
 mod conc;
+mod corpus;
+mod qgen;
 mod corrupt;
 mod crash;
 mod faults;
